@@ -188,7 +188,7 @@ fn exec(scn: &Scn, ctx: &mut Ctx) -> Verdict {
             }
             let n = op.n as usize * r.unit();
             let inp = if op.k == "data" { op_input(scn, i, n) } else { Vec::new() };
-            let got = r.step(op, &inp, scn.dirt(i + 1000, inp.len()));
+            let got = r.step(op, &inp, scn.dirt(i, inp.len()));
             // the interleaved run executed this op on actor `who` (h1 ops: on O only)
             if before_clone && actor == 1 {
                 // K never executed h1 itself; its replay just has to reach the same state
